@@ -322,7 +322,8 @@ func (p *Path) conv(dst, src types.Type, x Value) Value {
 			}
 			t := p.asTerm(x, "conv")
 			if !t.IsConst() {
-				panic(unsupported{"int->float conversion of a symbolic value"})
+				// floats are not encoded: the value may only flow into calls that ignore it (metrics)
+				return Poison{Why: "float conversion of a symbolic integer (floating point is not encoded)"}
 			}
 			if isUnsigned(src) {
 				return float64(t.K)
